@@ -30,13 +30,22 @@ class _Ix(object):
         self.timeout = 0.0
         self.timer = None
         self.closedFlag = False
+        self.quota = -1          # bytes the socket accepts per serviceTxes(): -1 all, 0 the peer is not reading
 
     def tx(self, data):
         self.txes.append(bytes(data))
 
     def serviceTxes(self):
-        while self.txes:
-            self.sent.extend(self.txes.popleft())
+        room = self.quota
+        while self.txes and room != 0:          # as tcp Incomer.serviceTxes: a partial send puts the rest back
+            data = self.txes.popleft()
+            n = len(data) if room < 0 else min(room, len(data))
+            self.sent.extend(data[:n])
+            if n < len(data):
+                self.txes.appendleft(data[n:])
+                break
+            if room > 0:
+                room -= n
 
     def shutclose(self):
         self.closedFlag = True
@@ -79,6 +88,9 @@ def run_server(maxline, ops):
                 elif op[0] == "r":
                     if op[1] in srv.ixes:
                         srv.ixes[op[1]].rxbs.extend(unhx(op[2]))
+                elif op[0] == "q":
+                    if op[1] in srv.ixes:
+                        srv.ixes[op[1]].quota = op[2]
                 else:
                     valet.serviceAll()
             except Exception as ex:
@@ -92,7 +104,8 @@ def run_server(maxline, ops):
                 lines.append("%d served=%d parser=%s left=%s" % (ca, served[ca], "none" if r.parser is None else "live",
                                                                  hx(ixs[ca].rxbs)))
         sent = {ca: bytes(ixs[ca].sent) + b"".join(ixs[ca].txes) for ca in order}
-        return lines, {"raised": raised, "sent": sent}
+        return lines, {"raised": raised, "sent": sent, "served": dict(served),
+                       "open": [ca for ca in order if ca in valet.reqs or ca in srv.ixes]}
     finally:
         httping.MAX_LINE_SIZE = old
 
@@ -141,7 +154,14 @@ def run_porter(maxline, ops):
         httping.MAX_LINE_SIZE = old
 
 
-def run_client(method, maxline, ops, dictable=False, redirectable=False):
+class _Timer(object):
+    expired = True
+
+    def restart(self, duration=None):
+        self.duration = duration
+
+
+def run_client(method, maxline, ops, dictable=False, redirectable=False, reconnect=False):
     """ops: bytes (received, then serviceResponse) | "c" (cutoff)"""
     from ioflo.aio.http import httping, clienting
     old = httping.MAX_LINE_SIZE
@@ -161,6 +181,18 @@ def run_client(method, maxline, ops, dictable=False, redirectable=False):
                 else:
                     patron.connector.rxbs.extend(op)
                 patron.serviceResponse()
+            except Exception as ex:
+                raised = type(ex).__name__
+        if reconnect and not raised:
+            # the connection is cut off on a reconnectable Patron whose timeout has expired: serviceAll reopens and
+            # re-arms the timer (with the event stream's retry); connector doubles: nothing connects
+            con = patron.connector
+            con.cutoff, con.reconnectable, con.timeout, con.timer = True, True, 1.0, _Timer()
+            con.reopen = lambda: None
+            con.serviceConnect = lambda: None
+            con.serviceTxes = lambda: None
+            try:
+                patron.serviceAll()
             except Exception as ex:
                 raised = type(ex).__name__
         flags = ["E" if r["errored"] else "ok" for r in patron.responses]
@@ -290,6 +322,66 @@ def hv_streams(kind):
     return out
 
 
+# ---- requests behind queued responses: a keep-alive connection whose peer reads slowly or not at all (the responses to
+# its earlier requests stay in ix.txes), with a malformed request at every position of its pipeline
+KEEP = [b"GET /b HTTP/1.1\r\nHost: b\r\n\r\n", b"POST /c HTTP/1.1\r\nContent-Length: 3\r\n\r\nabc",
+        b"PUT /e HTTP/1.1\r\nTransfer-Encoding: chunked\r\n\r\n2\r\nhi\r\n0\r\n\r\n"]
+MALFORMED = [b"BOGUS\r\n", b"FOO / HTTP/1.1\r\n\r\n", b"GET / HTTP/2.0\r\n\r\n", b"GET / HTTP/1.1\r\nNoColonHere\r\n\r\n",
+             b"POST / HTTP/1.1\r\nTransfer-Encoding: chunked\r\n\r\nzz\r\n", b"GET http://h:x/ HTTP/1.1\r\n\r\n"]
+_ALONE = {}
+
+
+def alone(msg):
+    """what the request parser by itself (no server around it) makes of these bytes: 'ok' a complete keep-alive request
+    and nothing left, 'error' a malformed one, 'other' anything else — the reference the server cases are judged by"""
+    key = bytes(msg)
+    if key not in _ALONE:
+        from ioflo.aio.http import serving
+        r = serving.Requestant(msg=bytearray(key), incomer=_Ix(0))
+        res = "other"
+        try:
+            with contextlib.redirect_stderr(io.StringIO()):
+                for _ in range(3):
+                    if r.parser:
+                        r.parse()
+            if r.ended:
+                res = "error" if r.errored else ("ok" if r.persisted and not r.msg else "other")
+        except Exception:
+            res = "other"
+        _ALONE[key] = res
+    return _ALONE[key]
+
+
+def reference(stream):
+    """the request parser by itself, re-armed after each request, over a whole pipeline: ('error', n) the (n+1)-th message is
+    malformed, ('waiting', n) / ('closed', n) otherwise.  What a malformed message is can depend on the bytes behind it
+    (a negative chunk size slices the buffer from its end), so the pipeline is judged as a whole"""
+    from ioflo.aio.http import serving
+    r = serving.Requestant(msg=bytearray(stream), incomer=_Ix(0))
+    n = 0
+    try:
+        with contextlib.redirect_stderr(io.StringIO()):
+            for _ in range(64):
+                r.parse()
+                if not r.ended:
+                    return ("waiting", n)
+                if r.errored:
+                    return ("error", n)
+                n += 1
+                if not r.persisted:
+                    return ("closed", n)
+                r.makeParser()
+    except Exception:
+        pass
+    return ("other", n)
+
+
+# ---- retry values of an event stream (the client turns the retry into a timer duration when it reconnects)
+RETRIES = [b"1" + b"0" * 400, b"-1" + b"0" * 400, b"9" * 309, str(2 ** 1024 - 2 ** 970).encode(), str(2 ** 1024 - 2 ** 970 - 1).encode(),
+           b"inf", b"-inf", b"Infinity", b"nan", b"1e999", b"1E400", b"1e3", b"3000.0", b"0x10", b"1_000", b" 12 ", b"+5", b"-5", b"0",
+           b"9" * 4300, b"9" * 4301, b"", b"1 0", b"\xd9\xa1"]
+
+
 class CHECK(core.Check):
     PROPERTY = "C32"
     LEAN_MODULES = ["IofloModel.Props.C32"]
@@ -310,7 +402,15 @@ class CHECK(core.Check):
             "interpreted header with ordinary / odd / broken values, Content-Type parameters with known, unknown, "
             "near-miss, non-text and malformed charset names), the body family (json / non-json / non-UTF-8 bodies "
             "under each Content-Type incl. charset variants, every framing), event-stream responses; generated: "
-            "one-byte mutations of family values; distinct by the whole case")
+            "one-byte mutations of family values; also complete in every tier: a malformed request at every position "
+            "of a keep-alive pipeline (0-2 good requests before, 0-1 after) on a connection whose peer reads everything / "
+            "nothing / 7 bytes per pass, so that earlier responses are still queued when it is parsed, pipelined or "
+            "request by request, with and without the peer resuming (generated: up to 4 before, 2 after, random quotas "
+            "and cuts, any malformed request the bare parser rejects) — judged by: the connection is closed, exactly "
+            "the requests before the malformed one are served and answered, neighbours undisturbed (Valet.serviceReqs "
+            "on unchanged code closes in the pass that parses the malformed request, whatever is queued; queued bytes "
+            "are dropped); retry values of an event stream (odd, float-like, too big for a duration) incl. a "
+            "reconnect of a cut-off reconnectable Patron; distinct by the whole case")
     TRUSTED = ["correspondence: real serving.Valet (WSGI app answering 'ok' with Content-Length) whose incomers are "
                "harness doubles (rxbs, tx, txes, serviceTxes, shutclose) and whose servant's socket methods "
                "(serviceConnects, serviceReceivesAllIx, serviceTxesAllIx) are replaced; real clienting.Patron whose "
@@ -331,7 +431,10 @@ class CHECK(core.Check):
                "logic (C34) are not modelled; redirect cases are judged by the oracle only",
                "sequences of responses on one reused Respondent around an event-stream response are a complete family of the "
                "check (added with the fix of reported defect D32f, replay replays/C32-D32f-unpatched.json); the "
-               "theorems speak of one parse() call from any safe state, which covers them"]
+               "theorems speak of one parse() call from any safe state, which covers them",
+               "retry values that float() cannot represent are ignored by the event source (fix of reported defect D32g, replay "
+               "replays/C32-D32g-unpatched.json) and are part of the retry family; byte quotas other than all / nothing "
+               "and the reconnect step are judged by the oracle only"]
     TECHNIQUE = ("Lean 4 theorems (safety invariant 'nothing escaped parse()' kept by every step of the parser state "
                  "machine on arbitrary bytes; fold over the connection table equals a per-connection map) + "
                  "differential correspondence against the real Valet / Patron with socket doubles")
@@ -447,6 +550,57 @@ class CHECK(core.Check):
         ops += [["s"]] * 4
         return {"type": "server", "max": maxline, "victim": victim, "ops": ops}
 
+    def _queued_case(self, rng, npre, bad, npost, quota, stepwise, release, cuts=0):
+        """connection `victim` sends npre good keep-alive requests, the malformed one, npost good ones; its peer accepts
+        `quota` bytes per transmit pass (0: is not reading, -1: everything), so earlier responses are still queued when
+        the malformed request is parsed; neighbours behave; expectation from the code of Valet.serviceReqs: the
+        connection is closed in the pass that parses the malformed request whatever is queued, and nothing behind it
+        is served"""
+        n = rng.choice([2, 3])
+        cas = list(range(1, n + 1))
+        victim = rng.choice(cas)
+        msgs = [rng.choice(KEEP) for _ in range(npre)] + [bad] + [rng.choice(KEEP) for _ in range(npost)]
+        if reference(b"".join(msgs)) != ("error", npre):      # (malformed only by itself, not with these bytes behind it)
+            bad = rng.choice(MALFORMED)
+            msgs[npre] = bad
+            assert reference(b"".join(msgs)) == ("error", npre)
+        ops = [["k", ca] for ca in cas]
+        if quota != -1:
+            ops.append(["q", victim, quota])
+        for ca in cas:
+            if ca != victim:
+                ops.append(["r", ca, hx(rng.choice(GOOD))])
+        if stepwise:
+            for m in msgs:
+                ops.append(["r", victim, hx(m)])
+                ops += [["s"]] * rng.choice([1, 2])
+        else:
+            stream = b"".join(msgs)
+            cs = sorted(rng.sample(range(len(stream) + 1), min(len(stream) + 1, cuts)))
+            for piece in c29.pieces_of(stream, cs):
+                ops.append(["r", victim, hx(piece)])
+                if cuts and rng.random() < 0.5:
+                    ops.append(["s"])
+        ops += [["s"]] * (len(msgs) + 3)
+        if release:
+            ops += [["q", victim, -1], ["s"], ["s"]]
+        c = {"type": "server", "max": 65536, "victim": victim, "ops": ops, "expect": {"served": npre},
+             "hv": "queued/%d/%r/%d/q%d%s%s" % (npre, bad[:12], npost, quota, "/step" if stepwise else "", "/release" if release else "")}
+        if quota > 0:
+            c["oracle_only"] = True       # the model knows a peer that reads everything or nothing; byte quotas: oracle only
+        return c
+
+    def _retry_cases(self, rng):
+        for v in RETRIES:
+            body = b"retry: " + v + b"\ndata: x\n\n"
+            for framing in ("chunked", "close"):
+                for c in self._sse_cases(rng, body=body, framing=framing):
+                    c["hv"] = "retry/%r" % v[:16]
+                    yield c
+                stream, close = self._sse_stream(rng, body, framing)
+                yield {"type": "client", "method": "GET", "max": 65536, "ops": ["f" + hx(stream)], "reconnect": True,
+                       "oracle_only": True, "hv": "retry-reconnect/%s/%r" % (framing, v[:16])}
+
     def _client_case(self, rng, bad=None, cut=None):
         method = rng.choice(["GET", "GET", "POST", "HEAD"])
         if bad is None:
@@ -516,6 +670,15 @@ class CHECK(core.Check):
         for i in range(len(self.SEQ2)):
             for j in range(len(self.SEQ3)):
                 yield self._sse_sequence(i, j)
+        for c in self._retry_cases(rng):      # retry values: odd, float-like, too big for a duration; also a reconnect
+            yield c
+        for npre in (0, 1, 2):                # a malformed request behind queued responses, every position, both servers' peer
+            for bad in MALFORMED:
+                for npost in (0, 1):
+                    for quota in (-1, 0, 7):
+                        for stepwise in (False, True):
+                            for release in (False, True):
+                                yield self._queued_case(rng, npre, bad, npost, quota, stepwise, release)
         if True:         # odd host names in Location
             for label, stream in redirect_streams(ODD_HOSTS):
                 yield {"type": "client", "method": "GET", "max": 65536, "redirectable": True, "oracle_only": True, "hv": label,
@@ -578,7 +741,14 @@ class CHECK(core.Check):
     def generate(self, rng, n, tier):
         for i in range(n):
             r = rng.random()
-            if r < 0.05:
+            if r < 0.04:
+                bad = rng.choice(MALFORMED + BAD) if rng.random() < 0.6 else self._damaged(rng, "req")
+                if alone(bad) != "error":
+                    bad = rng.choice(MALFORMED)
+                yield self._queued_case(rng, rng.choice([0, 1, 1, 2, 3, 4]), bad, rng.choice([0, 1, 2]),
+                                        rng.choice([-1, 0, 0, 0, 1, 5, 64, 1000]), rng.random() < 0.4, rng.random() < 0.5,
+                                        cuts=rng.choice([0, 0, 1, 3]))
+            elif r < 0.07:
                 yield self._hv_mutant(rng)
             elif r < 0.11:
                 for c in self._sse_cases(rng, maxline=rng.choice([65536, 65536, 24])):
@@ -608,7 +778,8 @@ class CHECK(core.Check):
             out = run_porter(case["max"], case["ops"])[0]
         elif case["type"] == "client":
             ops = ["c" if o == "c" else unhx(o[1:]) for o in case["ops"]]
-            out = run_client(case["method"], case["max"], ops, case.get("dictable", False), case.get("redirectable", False))[0]
+            out = run_client(case["method"], case["max"], ops, case.get("dictable", False), case.get("redirectable", False),
+                             case.get("reconnect", False))[0]
         else:
             out = self.p29.impl(case)
         self._impl_out[core.case_key(case)] = out
@@ -616,7 +787,8 @@ class CHECK(core.Check):
 
     def requests(self, case):
         if case["type"] in ("server", "porter"):
-            ops = ["k%d" % o[1] if o[0] == "k" else "r%d:%s" % (o[1], o[2]) if o[0] == "r" else o[0] for o in case["ops"]]
+            ops = ["k%d" % o[1] if o[0] == "k" else "r%d:%s" % (o[1], o[2]) if o[0] == "r" else
+                   ("z%d" if o[2] == 0 else "u%d") % o[1] if o[0] == "q" else o[0] for o in case["ops"]]
             return ["valet %d 1 %s" % (case["max"], " ".join(ops))]
         if case["type"] == "client":
             return ["client %s %d 1 %s" % (case["method"], case["max"], " ".join(case["ops"]))]
@@ -644,6 +816,20 @@ class CHECK(core.Check):
             if extra["raised"]:
                 return "exception %s left %s.serviceAll()" % (extra["raised"], "Valet" if case["type"] == "server" else "Porter")
             v = case["victim"]
+            vstream = b"".join(unhx(o[2]) for o in case["ops"] if o[0] == "r" and o[1] == v)
+            last = max([i for i, o in enumerate(case["ops"]) if o[0] == "r" and o[1] == v] or [len(case["ops"])])
+            passes = sum(1 for o in case["ops"][last:] if o[0] == "s")
+            if "expect" in case and reference(vstream) == ("error", case["expect"]["served"]) and passes >= case["expect"]["served"] + 2:
+                # reference: the parser by itself says which of the victim's messages are sound and which is malformed
+                # (recomputed from the case, so that a shrunk case is still judged by what it contains)
+                want = case["expect"]["served"]
+                if v in extra["open"]:
+                    return "connection %d still open after its malformed request" % v
+                if extra["served"].get(v, 0) != want:
+                    return "connection %d: %d requests served, %d precede the malformed one" % (v, extra["served"].get(v, 0), want)
+                if extra["sent"][v].count(b"HTTP/1.1 200") != want:
+                    return "connection %d: %d responses produced, %d requests precede the malformed one" % (
+                        v, extra["sent"][v].count(b"HTTP/1.1 200"), want)
             quiet = [o for o in case["ops"] if not (o[0] == "r" and o[1] == v)]
             blines, bextra = runner(case["max"], quiet)
             for ca, sent in extra["sent"].items():
@@ -659,7 +845,7 @@ class CHECK(core.Check):
         if case["type"] == "client":
             ops = ["c" if o == "c" else unhx(o[1:]) for o in case["ops"]]
             lines, raised = run_client(case["method"], case["max"], ops, case.get("dictable", False),
-                                       case.get("redirectable", False))
+                                       case.get("redirectable", False), case.get("reconnect", False))
             if raised:
                 return "exception %s left Patron.serviceResponse()" % raised
             if case.get("redirectable") and "responses= " in lines[0] and "waited=F" in lines[0]:
